@@ -1,5 +1,6 @@
 import FrappyProofs.Lemmas.Describe
 import FrappyProofs.Props.C04
+import FrappyModel.Generated.C06
 /-
 C06 — property theorems (nothing but property theorems and their non-vacuity examples).
 -/
@@ -446,6 +447,11 @@ theorem described_datainfo_equiv (pre : Predef) (n : Node J V) (hwf : Node.WF pr
       (clientAccepts ad.datainfo j = true ↔ ∃ v, p.dt.accept j (some p.entry.value) = .ok v) := by
   obtain ⟨mod, p, hl, _, hdi, _, _⟩ := described_is_dispatched pre n hwf m a ad h hk
   exact ⟨mod, p, hl, by rw [hdi]; exact law p.dt j _⟩
+
+/-- table fact: `datainfo`, `readonly` and `description` are exported for every parameter whatever their value
+(`export='always'`), so every parameter entry of a report carries a readonly flag and a datainfo, as `describeAcc` says -/
+theorem always_exported : "datainfo" ∈ Frappy.Generated.C06.paramAlways ∧ "readonly" ∈ Frappy.Generated.C06.paramAlways ∧
+    "datainfo" ∈ Frappy.Generated.C06.commandAlways := by decide +kernel
 
 /-! ### non-vacuity (the node of `Props.C04.Example`) -/
 
